@@ -29,6 +29,11 @@ pub enum Ev {
     /// carries k's value, j's value is released with its handle
     AddWithTwo(usize, usize),
     Finish,
+    /// add_object (implicit TOI) of an object the sender refuses (Reed-Solomon without parity symbols): whatever
+    /// TOI it was given is free again, and the refusal leaves the allocator sound
+    AddRefused,
+    /// the same refusal for an object carrying handle j: the handle's value is released with the object
+    AddRefusedWith(usize),
 }
 
 pub struct Sys15 {
@@ -44,6 +49,7 @@ pub struct Sys15 {
     pub reused: bool,
     pub wire_checked: u32,
     pub now_ms: u64,
+    pub refusals: u32,
 }
 
 fn bits_mask(bits: u8) -> u128 {
@@ -59,7 +65,7 @@ impl Sys15 {
         let mut s = SessSpec::basic(OtiSpec::new(Scheme::NoCode, 1424, 64, 0, true));
         s.toi_bits = cfg.bits;
         s.toi_init = Some(cfg.init.clone());
-        Sys15 { cfg: cfg.clone(), sender: s.sender().unwrap(), handles: vec![], objects: BTreeMap::new(), next_salt: 1, viol: vec![], ever_released: BTreeSet::new(), wrapped: false, reused: false, wire_checked: 0, now_ms: 0 }
+        Sys15 { cfg: cfg.clone(), sender: s.sender().unwrap(), handles: vec![], objects: BTreeMap::new(), next_salt: 1, viol: vec![], ever_released: BTreeSet::new(), wrapped: false, reused: false, wire_checked: 0, now_ms: 0, refusals: 0 }
     }
     fn live(&self) -> BTreeSet<u128> {
         let mut l: BTreeSet<u128> = self.handles.iter().flatten().map(|h| h.get()).collect();
@@ -159,6 +165,26 @@ impl Sys15 {
                     }
                 }
             }
+            Ev::AddRefused | Ev::AddRefusedWith(_) => {
+                let salt = self.next_salt;
+                self.next_salt += 1;
+                let mut o = self.obj(salt);
+                o.oti = Some(OtiSpec::new(Scheme::Rs28, 8, 2, 0, true));
+                let mut d = o.desc(None).unwrap();
+                if let Ev::AddRefusedWith(j) = ev {
+                    match self.handles[*j].take() {
+                        Some(h) => {
+                            self.ever_released.insert(h.get());
+                            d.set_toi(h);
+                        }
+                        None => return,
+                    }
+                }
+                match self.sender.add_object(0, d) {
+                    Ok(t) => self.viol.push(("C15/harness-refusal-expected".into(), format!("an RS object without parity symbols was accepted with TOI {}", t))),
+                    Err(_) => self.refusals += 1,
+                }
+            }
             Ev::Finish => {
                 // publish + drain: every object (single transfer) is transmitted and leaves the sender
                 self.now_ms += 10;
@@ -247,6 +273,12 @@ impl Sys for Sys15 {
         if self.objects.len() < 3 && self.next_salt < 12 {
             v.push(Ev::AddImplicit);
         }
+        if self.next_salt < 12 && self.refusals < 2 {
+            v.push(Ev::AddRefused);
+            if let Some(j) = self.handles.iter().position(|h| h.is_some()) {
+                v.push(Ev::AddRefusedWith(j));
+            }
+        }
         if !self.objects.is_empty() {
             v.push(Ev::Finish);
         }
@@ -262,7 +294,7 @@ impl Sys for Sys15 {
     }
     fn fingerprint(&self) -> u64 {
         let hv: Vec<Option<u128>> = self.handles.iter().map(|h| h.as_ref().map(|h| h.get())).collect();
-        h64(&(canon_compact(&format!("{:?}", self.sender)), hv, &self.objects, self.next_salt, self.viol.len()))
+        h64(&(canon_compact(&format!("{:?}", self.sender)), hv, &self.objects, self.next_salt, self.viol.len(), self.refusals))
     }
     fn verdicts(&self) -> Vec<(String, String)> {
         self.viol.clone()
@@ -274,6 +306,9 @@ impl Sys for Sys15 {
         }
         if self.reused {
             w.push("released_value_reused");
+        }
+        if self.refusals > 0 {
+            w.push("add_object_refused");
         }
         if self.wire_checked > 0 {
             w.push("wire_toi_checked");
